@@ -136,16 +136,17 @@ example : Acyclic diamond := acyclic_of_order ["a", "b", "c", "d", "e", "u"] dia
     a RUNNING workflow whose rows are all finished has a completion check pending; a finished workflow
     has only finished rows (SUCCESS: all SUCCESS, ERROR: one ERROR); once started, no needed task is
     startable and not started. -/
-theorem live_inv_reachable (sp : Spec) (evs : List Event) :
-    Static sp (run sp evs) ∧ Pend (run sp evs) := ⟨(live_reachable sp evs).1, (live_reachable sp evs).2.1⟩
+theorem live_inv_reachable (sp : Spec) (evs : List Event) (hops : ∀ e ∈ evs, NoOp e) :
+    Static sp (run sp evs) ∧ Pend (run sp evs) := ⟨(live_reachable sp evs hops).1, (live_reachable sp evs hops).2.1⟩
 
 /-- the outcome under the two facts about `requires` (by name) it needs -/
-theorem quiescent_outcome_core (sp : Spec) (evs : List Event) (hwf : WellFormedN sp) (hac : AcyclicN sp)
+theorem quiescent_outcome_core (sp : Spec) (evs : List Event) (hops : ∀ e ∈ evs, NoOp e)
+    (hwf : WellFormedN sp) (hac : AcyclicN sp)
     (hq : (run sp evs).pending = []) (hst : (run sp evs).wf ≠ .IDLE) :
     ((run sp evs).wf = .ERROR ∧ ∃ r ∈ (run sp evs).tasks, r.state = .ERROR) ∨
     ((run sp evs).wf = .SUCCESS ∧ ∃ nd, needed sp = some nd ∧
       ∀ n ∈ nd, ∃ r ∈ (run sp evs).tasks, r.name = n ∧ r.state = .SUCCESS) := by
-  rcases live_reachable sp evs with ⟨hs, hp, _⟩
+  rcases live_reachable sp evs hops with ⟨hs, hp, _⟩
   rcases quiescent_finished sp _ hs hp hq with ⟨_, hnr⟩
   rcases hs.wfStates with h | h | h | h
   · exact absurd h hst
@@ -175,12 +176,13 @@ theorem byName_of_tasks (sp : Spec) (hwf : WellFormed sp) (hac : Acyclic sp) : W
   · intro n q hq; rcases hreq n q hq with ⟨t, ht, hname, hq'⟩; rw [← hname]; exact hrank t ht q hq'
 
 /-- the outcome for any specification whose `requires` is acyclic (whether or not it was validated) -/
-theorem quiescent_outcome_acyclic (sp : Spec) (evs : List Event) (hwf : WellFormed sp) (hac : Acyclic sp)
+theorem quiescent_outcome_acyclic (sp : Spec) (evs : List Event) (hops : ∀ e ∈ evs, NoOp e)
+    (hwf : WellFormed sp) (hac : Acyclic sp)
     (hq : (run sp evs).pending = []) (hst : (run sp evs).wf ≠ .IDLE) :
     ((run sp evs).wf = .ERROR ∧ ∃ r ∈ (run sp evs).tasks, r.state = .ERROR) ∨
     ((run sp evs).wf = .SUCCESS ∧ ∃ nd, needed sp = some nd ∧
       ∀ n ∈ nd, ∃ r ∈ (run sp evs).tasks, r.name = n ∧ r.state = .SUCCESS) :=
-  quiescent_outcome_core sp evs (byName_of_tasks sp hwf hac).1 (byName_of_tasks sp hwf hac).2 hq hst
+  quiescent_outcome_core sp evs hops (byName_of_tasks sp hwf hac).1 (byName_of_tasks sp hwf hac).2 hq hst
 
 /-- what definition-time validation of a reverse workflow (`_check_workflow_integrity` with
     `_check_requires_cycles`) guarantees: every required task exists and `requires` has no cycle -/
@@ -193,25 +195,31 @@ theorem validator_rounds_suffice (sp : Spec) (g : Nat) (hg : sp.tasks.length ≤
   peel_fuel sp sp.tasks.length _ [] (by simp) g hg
 
 /-- "Every workflow run finishes with the outcome its definition prescribes", reverse workflows, FULL
-    STRENGTH: for EVERY definition the validator accepts, every target and EVERY event history, if
+    STRENGTH: for EVERY definition the validator accepts, every target and EVERY event history without
+    operator commands (a stopped run ends as it is told to, a run left paused does not end), if
     nothing is pending any more (and the run was started) then either the workflow is ERROR and some
     task failed, or it is SUCCESS and EVERY needed task (the target included) has a row in SUCCESS —
     by `each_once_reachable` exactly one.  It is never left RUNNING. -/
-theorem quiescent_outcome (sp : Spec) (evs : List Event) (hv : checkIntegrity sp = none)
+theorem quiescent_outcome (sp : Spec) (evs : List Event) (hops : ∀ e ∈ evs, NoOp e)
+    (hv : checkIntegrity sp = none)
     (hq : (run sp evs).pending = []) (hst : (run sp evs).wf ≠ .IDLE) :
     ((run sp evs).wf = .ERROR ∧ ∃ r ∈ (run sp evs).tasks, r.state = .ERROR) ∨
     ((run sp evs).wf = .SUCCESS ∧ ∃ nd, needed sp = some nd ∧
       ∀ n ∈ nd, ∃ r ∈ (run sp evs).tasks, r.name = n ∧ r.state = .SUCCESS) :=
-  quiescent_outcome_core sp evs (checkIntegrity_sound sp hv).1 (checkIntegrity_sound sp hv).2 hq hst
+  quiescent_outcome_core sp evs hops (checkIntegrity_sound sp hv).1 (checkIntegrity_sound sp hv).2 hq hst
 
 /-- the same for the histories that matter: anything after the start of a run of an accepted
     definition on an existing target -/
-theorem started_run_outcome (sp : Spec) (evs : List Event) (hv : checkIntegrity sp = none)
+theorem started_run_outcome (sp : Spec) (evs : List Event) (hops : ∀ e ∈ evs, NoOp e)
+    (hv : checkIntegrity sp = none)
     (ht : isTask sp sp.target = true) (hq : (run sp (.start :: evs)).pending = []) :
     ((run sp (.start :: evs)).wf = .ERROR ∧ ∃ r ∈ (run sp (.start :: evs)).tasks, r.state = .ERROR) ∨
     ((run sp (.start :: evs)).wf = .SUCCESS ∧
       ∃ r ∈ (run sp (.start :: evs)).tasks, r.name = sp.target ∧ r.state = .SUCCESS) := by
-  rcases quiescent_outcome sp (.start :: evs) hv hq (started_after_start sp evs ht) with h | ⟨h1, nd, hnd, h2⟩
+  rcases quiescent_outcome sp (.start :: evs)
+      (by intro e he; rcases List.mem_cons.mp he with rfl | he
+          · trivial
+          · exact hops e he) hv hq (started_after_start sp evs ht) with h | ⟨h1, nd, hnd, h2⟩
   · exact Or.inl h
   · exact Or.inr ⟨h1, h2 sp.target (target_mem_needed sp nd hnd)⟩
 
@@ -219,10 +227,10 @@ example : checkIntegrity diamond = none := by decide
 
 /-- SUCCESS and ERROR are told apart by the tasks: at quiescence the workflow is ERROR exactly when
     some task failed (no acyclicity needed). -/
-theorem quiescent_error_iff (sp : Spec) (evs : List Event) (hq : (run sp evs).pending = [])
+theorem quiescent_error_iff (sp : Spec) (evs : List Event) (hops : ∀ e ∈ evs, NoOp e) (hq : (run sp evs).pending = [])
     (hst : (run sp evs).wf ≠ .IDLE) :
     (run sp evs).wf = .ERROR ↔ ∃ r ∈ (run sp evs).tasks, r.state = .ERROR := by
-  rcases live_reachable sp evs with ⟨hs, hp, _⟩
+  rcases live_reachable sp evs hops with ⟨hs, hp, _⟩
   rcases quiescent_finished sp _ hs hp hq with ⟨_, hnr⟩
   constructor
   · exact hs.error
@@ -270,5 +278,28 @@ example : let w := run diamond (.start :: runTask "a" true ++ runTask "c" true +
     w.pending = [] ∧ w.wf = .ERROR ∧
     w.tasks.map (fun r => (r.name, r.state)) = [("a", .SUCCESS), ("b", .ERROR), ("c", .SUCCESS)] := by
   decide
+
+/-! ### operator commands: pause / resume / stop are events of the model; the invariant `Inv`
+    (requires-order, only needed, each once) holds over histories that contain them (`inv_reachable`
+    quantifies over ALL event lists) -/
+
+-- a completes while the workflow is PAUSED: nothing is created; resume creates b and c
+example : let w := run diamond (.start :: (runTask "a" true).take 4 ++ [.pause, .deliver (.rpcResult "a" true)])
+    w.wf = .PAUSED ∧ w.pending = [] ∧ w.tasks.map (fun r => (r.name, r.state, r.processed)) = [("a", .SUCCESS, false)] := by
+  decide
+
+example : let w := run diamond (.start :: (runTask "a" true).take 4 ++ [.pause, .deliver (.rpcResult "a" true), .resume])
+    w.wf = .RUNNING ∧ w.pending = [.postStartTask "b", .postStartTask "c"] ∧
+    w.tasks.map (fun r => (r.name, r.state, r.processed)) = [("a", .SUCCESS, true), ("b", .IDLE, false), ("c", .IDLE, false)] := by
+  decide
+
+-- resume while a is still IDLE: a second start request (RunExistingTask) for the same row, no second row
+example : let w := run diamond [.start, .pause, .resume]
+    w.pending = [.postStartTask "a", .postStartExisting "a"] ∧ w.tasks.map (·.name) = ["a"] := by decide
+
+-- a stopped run: the rows that were started finish, nothing new is created
+example : let w := run diamond (.start :: (runTask "a" true).take 4 ++ [.stop .CANCELLED, .deliver (.rpcResult "a" true),
+      .deliver .postCheck])
+    w.wf = .CANCELLED ∧ w.pending = [] ∧ w.tasks.map (fun r => (r.name, r.state)) = [("a", .SUCCESS)] := by decide
 
 end Mistral.Props.C04Rev
